@@ -31,6 +31,17 @@ PROPS = {
         "assumptions": ["StepHonest: an iteration reporting changed=false left the database unchanged (true without deletions)", "saturate laws are conditional on termination"],
         "partial": ["C10_fixpoint for non-monotone (deleting) programs is outside the claim, as the design notes"],
     },
+    "C16": {
+        "title": "The table store behaves like a keyed map with timestamp-ordered scans",
+        "modules": ["EgglogVerif.Props.C16"],
+        "level": "proof",
+        "technique": "Lean 4 proof (refinement of the rows+stale-marks+hash-index+compaction model of SortedWritesTable to a plain map, invariant WF by induction over every op sequence) + op-by-op correspondence with the real table (serial and inside a 4-thread pool) + direct comparison with a BTreeMap; DisplacedTable histories against the union closure",
+        "design_ref": "DESIGN.md §5 C16",
+        "level_text": "C16_refine: for every sequence of merges (staged removals then insertions, any key-preserving merge function), compactions and clears the model is well-formed (hash index exactly the live rows, one per key) and get_row equals the abstract map; C16_scan / C16_scanWhere: scans and constrained scans return exactly the map's rows, each once; C16_rehash: compaction preserves rows, order and lookups, leaves no stale row, bumps the generation; C16_clear. The model is compared after every op with the real SortedWritesTable on len, generation bumps (compaction threshold), scans and lookups; refine()/fast_subset() results are compared with the filtered map; DisplacedTable is checked against the closure of its unions (defect 7 fixed in /repo).",
+        "trust": ["offsets/binary search of fast_subset and the hash_index caches are validated by correspondence, not modelled", "unsafe shard writes of parallel_insert/parallel_rehash are exercised, not modelled"],
+        "assumptions": ["merge functions keep the key columns (KeepsKey)", "row values below Value::stale()"],
+        "partial": ["index (hash_index) incremental refresh and DisplacedTable have no Lean theorem yet; they are checked against the specification directly"],
+    },
     "C17": {
         "title": "Union-find: same class iff connected, representative is the minimum id",
         "modules": ["EgglogVerif.Props.C17"],
